@@ -258,6 +258,12 @@ Section Steps.
   Definition unset_values (tb : table) (cs : list name) (rows : list rowid) : list (name * list val) :=
     omap (fun c => (fun col => (c, map (fun _ => cdefault col) rows)) <$> t_cols tb !! c) cs.
 
+  (* undo of BulkRemoveRecord: the removed rows with the columns that were not all default *)
+  Definition remove_undo (t : name) (tb : table) (cs : list name) (rows : list rowid) : action :=
+    BulkAddRecord t rows
+      (col_values tb (filter (fun c => from_option (fun col => negb (all_default col rows)) false
+                                                   (t_cols tb !! c) = true) cs) rows).
+
   Definition steps_of (d : doc) (a : action) : list mstep :=
     match a with
     | AddRecord t r vals => [MFail]      (* desugared by normalize below before use *)
@@ -279,11 +285,9 @@ Section Steps.
             | [] => []
             | _ =>
               let cs := cols_in_order t tb in
-              let undo_cs := filter (fun c => from_option (fun col => negb (all_default col rows')) false
-                                                          (t_cols tb !! c) = true) cs in
               map (MDelRow t) rows'
               ++ concat (map (cell_steps t rows') (unset_values tb cs rows'))
-              ++ [MUndo (BulkAddRecord t rows' (col_values tb undo_cs rows')); MSum (SRemoveRecords t)]
+              ++ [MUndo (remove_undo t tb cs rows'); MSum (SRemoveRecords t)]
             end
         end
     | BulkUpdateRecord t rows vals =>
